@@ -291,7 +291,8 @@ class PtySession:
         deadline = time.monotonic() + timeout
         while b"\n" not in self._rbuf:
             left = deadline - time.monotonic()
-            r = select.select([self.proc.stdout], [], [], max(left, 0))[0] if left > 0 else []
+            # even when the deadline has passed (this process may have been stalled itself), look once
+            r = select.select([self.proc.stdout], [], [], max(left, 0))[0]
             if not r:
                 raise NoReturn(f"worker silent for {timeout}s")
             chunk = os.read(self.proc.stdout.fileno(), 1 << 20)
@@ -350,7 +351,16 @@ class PtySession:
         i-th request the terminal expects, `bursts[i]` its answer as (real delay s, bytes)."""
         res = {}
         for attempt in range(4):
-            res = self._run_once(scn, list(requests), [list(b) for b in bursts], fault, sigint_after, limit, slack)
+            try:
+                res = self._run_once(scn, list(requests), [list(b) for b in bursts], fault, sigint_after, limit, slack)
+            except NoReturn:
+                # a call that really blocks does so again: only a second silence in a row counts
+                # (the session has been restarted)
+                if attempt or getattr(self, "_silent_once", None) == id(scn):
+                    raise
+                self._silent_once = id(scn)
+                self.stalls = getattr(self, "stalls", 0) + 1
+                continue
             if res.get("stray_sigint"):
                 continue
             if sigint_after is None or res.get("sig") == "in_call":
